@@ -2,6 +2,7 @@ package sym
 
 import (
 	"go/types"
+	"runtime"
 	"time"
 	"strings"
 
@@ -61,7 +62,32 @@ func (e *Engine) execFunction(fn *ssa.Function, args []Value, bindings []Value, 
 	if len(e.stack) > e.stats.MaxDepthSeen {
 		e.stats.MaxDepthSeen = len(e.stack)
 	}
-	defer func() { e.stack = e.stack[:len(e.stack)-1] }()
+	depth := len(e.stack)
+	defer func() {
+		if r := recover(); r != nil {
+			if _, ok := r.(*abortErr); !ok {
+				buf := make([]byte, 8192)
+				buf = buf[:runtime.Stack(buf, false)]
+				var fr []string
+				for _, l := range strings.Split(string(buf), "\n") {
+					if strings.HasPrefix(l, "gosym/sym.") && !strings.Contains(l, "execFunction.func1") && len(fr) < 5 {
+						if i := strings.Index(l, "("); i > 0 {
+							l = l[:i]
+						}
+						fr = append(fr, strings.TrimPrefix(l, "gosym/sym."))
+					}
+				}
+				r = e.abort("engine internal error: %v [%s]", r, strings.Join(fr, " < "))
+			}
+			if len(e.stack) >= depth {
+				e.stack = e.stack[:depth-1]
+			}
+			panic(r)
+		}
+		if len(e.stack) >= depth {
+			e.stack = e.stack[:depth-1]
+		}
+	}()
 	e.stats.Calls++
 	e.stats.Functions[fn.String()]++
 	if e.cfg.Trace {
@@ -465,6 +491,72 @@ func (x *fnExec) runDefers(p *Path) []*Path {
 	return cur
 }
 
+// evalUnder evaluates a Bool term under the state's model; ok=false if the state has no model.
+func (e *Engine) evalUnder(st *State, c *Term) (bool, bool) {
+	if st.model == nil {
+		return false, false
+	}
+	return e.tb.Eval(c, st.model, map[*Term]uint64{}) == 1, true
+}
+
+// ensureModel rebuilds the state's model with one whole-pc query if it was invalidated.
+func (e *Engine) ensureModel(st *State) {
+	if st.model != nil {
+		return
+	}
+	if len(st.pc) == 0 {
+		st.model = map[string]uint64{}
+		return
+	}
+	seen := map[int32]bool{}
+	var vars []*Term
+	for _, p := range st.pc {
+		for _, id := range p.Vars() {
+			if !seen[id] {
+				seen[id] = true
+				if v := e.tb.varByID[int(id)]; v != nil {
+					vars = append(vars, v)
+				}
+			}
+		}
+	}
+	if len(vars) == 0 {
+		st.model = map[string]uint64{}
+		return
+	}
+	r, m := e.solver.check(st.pc, vars, false)
+	if r == Sat && m != nil {
+		st.model = m
+	}
+}
+
+// feasibleWith decides sat(pc AND c); on sat it returns a model of the whole pc AND c (built from the state's model
+// and the solver's values for the variables of the relevant slice).
+func (e *Engine) feasibleWith(st *State, c *Term) (Result, map[string]uint64) {
+	r, m := e.solver.FeasibleModel(st.pc, c)
+	if r != Sat || m == nil {
+		return r, nil
+	}
+	if st.model == nil {
+		// no model of the remainder known: only usable if the slice covered the whole pc
+		if len(m) == 0 {
+			return r, nil
+		}
+		if !e.solver.lastSliceWhole {
+			return r, nil
+		}
+		return r, m
+	}
+	nm := make(map[string]uint64, len(st.model)+len(m))
+	for k, v := range st.model {
+		nm[k] = v
+	}
+	for k, v := range m {
+		nm[k] = v
+	}
+	return r, nm
+}
+
 // branch splits st on c. Either result may be nil (infeasible). st itself is reused for one side.
 func (e *Engine) branch(st *State, c *Term) (t, f *State) {
 	if c.IsTrue() {
@@ -482,13 +574,28 @@ func (e *Engine) branch(st *State, c *Term) (t, f *State) {
 			return nil, st
 		}
 	}
-	rt := e.solver.Feasible(st.pc, c)
-	if rt == Unsat {
-		return nil, st
+	var mt, mf map[string]uint64
+	rt, rf := Unknown, Unknown
+	e.ensureModel(st)
+	if v, ok := e.evalUnder(st, c); ok {
+		e.stats.ModelHits++
+		if v {
+			rt, mt = Sat, st.model
+		} else {
+			rf, mf = Sat, st.model
+		}
 	}
-	rf := e.solver.Feasible(st.pc, nc)
-	if rf == Unsat {
-		return st, nil
+	if rt == Unknown {
+		rt, mt = e.feasibleWith(st, c)
+		if rt == Unsat {
+			return nil, st
+		}
+	}
+	if rf == Unknown {
+		rf, mf = e.feasibleWith(st, nc)
+		if rf == Unsat {
+			return st, nil
+		}
 	}
 	e.stats.Forks++
 	if e.stats.Forks > e.cfg.MaxPaths {
@@ -496,12 +603,20 @@ func (e *Engine) branch(st *State, c *Term) (t, f *State) {
 	}
 	f = st.fork()
 	st.assume(c)
+	st.model = mt
 	f.assume(nc)
+	f.model = mf
 	return st, f
 }
 
 // guard continues with ok assumed; if !ok is feasible a panic outcome is appended to outs.
 func (e *Engine) guard(st *State, ok *Term, msg string, outs *[]Outcome) *State {
+	if !ok.IsConst() {
+		// the failing side is usually infeasible: one query settles it
+		if r, _ := e.solver.FeasibleModel(st.pc, e.tb.Not(ok)); r == Unsat {
+			return st
+		}
+	}
 	t, f := e.branch(st, ok)
 	if f != nil {
 		*outs = append(*outs, e.panicOut(f, msg))
